@@ -252,11 +252,11 @@ Definition main_pre (ctx : bool) : list eff := FInstall :: (if ctx then [FEnable
 Definition main_post (kd : kind) (ctx timed : bool) : list eff :=
   raise_eff kd ++ (if ctx then [FDisable] else [])
   ++ (match kd with KReturn => [] | k => if absorbed k then [FCaught k] else [] end)
-  ++ (if timed then [FTimerStop] else []).
+  ++ [FUninstall] ++ (if timed then [FTimerStop] else []).
 Definition main_rest (out : ostate) (outfile : string) : list eff :=
   match out with
-  | OutOk => [FWrote outfile; FInspect; FUninstall]
-  | OutNone => [FUninstall]
+  | OutOk => [FWrote outfile; FInspect]
+  | OutNone => []
   | OutBroken => [FIOFails]
   end.
 Definition main_outcome (kd : kind) (out : ostate) : outcome :=
